@@ -26,7 +26,11 @@ import (
 	"verifharness/internal/h"
 )
 
-const sigNsuSemi = "C04.nsu-uri-semicolon"
+// escNsu: the text form of a namespace URI (Part 6 5.3.1.10): the reserved characters ';' and
+// '%' are written as %3B and %25 (the specification side; the library itself renders no URIs)
+func escNsu(u string) string {
+	return strings.ReplaceAll(strings.ReplaceAll(u, "%", "%25"), ";", "%3B")
+}
 
 type env struct {
 	o   *h.Opts
@@ -302,7 +306,7 @@ func (e *env) runNsux(line string, t []string) {
 			break
 		}
 	}
-	text := "nsu=" + uri + ";" + id
+	text := "nsu=" + escNsu(uri) + ";" + id
 	ref := fmt.Sprintf("ns=%d;%s", first, id)
 	// the model sees it as a plain parsex line
 	e.runParsex("parsex "+h.Hex([]byte(text))+" "+strings.Join(t[3:], " "), append([]string{"parsex", h.Hex([]byte(text))}, t[3:]...))
@@ -310,24 +314,18 @@ func (e *env) runNsux(line string, t []string) {
 	var ex, ey error
 	h.Catch(func() string { x, ex = ua.ParseExpandedNodeID(text, tbl); return "" })
 	h.Catch(func() string { y, ey = ua.ParseExpandedNodeID(ref, tbl); return "" })
-	sig := ""
-	if strings.IndexByte(uri, ';') >= 0 {
-		sig = sigNsuSemi
-		e.r.Hit("nsux:uri-with-semicolon")
-	} else {
+	switch {
+	case strings.ContainsAny(uri, ";%"):
+		e.r.Hit("nsux:uri-with-reserved-character") // the shape of the repaired C04.nsu-uri-semicolon
+	default:
 		e.r.Hit("nsux:plain-uri")
 	}
 	// ---- oracle: the URI form names the same node as the index form
 	switch {
 	case (ex == nil) != (ey == nil):
-		e.r.Fail(line, sig, fmt.Sprintf("ParseExpandedNodeID(%q) err=%v but (%q) err=%v", text, ex, ref, ey))
+		e.r.Fail(line, "", fmt.Sprintf("ParseExpandedNodeID(%q) err=%v but (%q) err=%v", text, ex, ref, ey))
 	case ex == nil && !sameNode(partsOf(x.NodeID), partsOf(y.NodeID)):
-		e.r.Fail(line, sig, fmt.Sprintf("ParseExpandedNodeID(%q) = {%s} but (%q) = {%s}", text, partsOf(x.NodeID).line(), ref, partsOf(y.NodeID).line()))
-	default:
-		return
-	}
-	if sig != "" {
-		e.r.Confirm(sig, fmt.Sprintf("table %q: %q vs %q", tbl, text, ref))
+		e.r.Fail(line, "", fmt.Sprintf("ParseExpandedNodeID(%q) = {%s} but (%q) = {%s}", text, partsOf(x.NodeID).line(), ref, partsOf(y.NodeID).line()))
 	}
 }
 
@@ -689,7 +687,7 @@ func main() {
 			tbl := make([]string, 0, nt+2)
 			var plain []string
 			for k := 0; k < nt; k++ {
-				u := []string{"urn:a", "http://x/y", "", "urn:a;b", "urn:a", "urn:x;i=1", "a%3Bb", "nsu=urn:a", "urn:Vendor:Device", "http://Host/Path"}[e.rnd.Intn(10)]
+				u := []string{"urn:a", "http://x/y", "", "urn:a;b", "urn:a", "urn:x;i=1", "a%3Bb", "nsu=urn:a", "urn:Vendor:Device", "http://Host/Path", "a%b", "a%3Bb", "a;b", "100%;", "%25", "x%3bb"}[e.rnd.Intn(16)]
 				if e.rnd.Chance(25) {
 					u = string(e.text(1 + e.rnd.Intn(5)))
 				}
@@ -710,6 +708,18 @@ func main() {
 			e.run("parsex " + hx(e.assembled()) + " " + ts)
 			e.run("parsex " + hx(e.assembled()) + " nil")
 			e.run("parsex " + hx([]byte(s)) + " " + ts)
+			// a table entry named in its escaped, lower-case-escaped, raw and doubly escaped text form
+			{
+				u := plain[e.rnd.Intn(len(plain))]
+				w := []string{escNsu(u), strings.ReplaceAll(escNsu(u), "%3B", "%3b"), u, escNsu(escNsu(u)), strings.ReplaceAll(u, ";", "%3B")}[e.rnd.Intn(5)]
+				l := "parsex " + hx(append([]byte("nsu="+w+";"), e.assembledIdent()...)) + " " + ts
+				before := r.Distribution["xparse:nsu/i=/ok"] + r.Distribution["xparse:nsu/s=/ok"] + r.Distribution["xparse:nsu/b=/ok"] + r.Distribution["xparse:nsu/g=/ok"] + r.Distribution["xparse:nsu/bare/ok"]
+				e.run(l)
+				after := r.Distribution["xparse:nsu/i=/ok"] + r.Distribution["xparse:nsu/s=/ok"] + r.Distribution["xparse:nsu/b=/ok"] + r.Distribution["xparse:nsu/g=/ok"] + r.Distribution["xparse:nsu/bare/ok"]
+				if after > before && strings.Contains(w, "%") {
+					r.Hit("xparse:escaped-uri/ok")
+				}
+			}
 			// a URI that is NOT in the table but close to one that is
 			e.run("parsex " + hx(append([]byte("nsu="+nearURI(e.rnd, plain[e.rnd.Intn(len(plain))])+";"), e.assembledIdent()...)) + " " + ts)
 		}
@@ -742,7 +752,7 @@ func main() {
 		"eq:same=true", "eq:same=false", "eq:same-node-different-encoding-or-flags",
 		"parse:empty/ok", "parse:ns/i=/ok", "parse:ns/i=/err", "parse:ns/s=/ok", "parse:ns/g=/ok", "parse:ns/g=/err", "parse:ns/b=/ok", "parse:ns/b=/err",
 		"parse:ns/ns=/err", "parse:ns/bare/ok", "parse:other/i=/err", "parse:nsu/i=/err",
-		"xparse:nsu/i=/ok", "xparse:nsu/i=/err", "xparse:nsu/s=/ok", "xparse:ns/i=/ok", "nsux:plain-uri", "nsux:uri-with-semicolon", "nsux:table-has-case-variant",
+		"xparse:nsu/i=/ok", "xparse:nsu/i=/err", "xparse:nsu/s=/ok", "xparse:ns/i=/ok", "nsux:plain-uri", "nsux:uri-with-reserved-character", "xparse:escaped-uri/ok", "nsux:table-has-case-variant",
 		"b64d:ok", "b64d:err", "b64e", "guid:ok", "guid:nil"}
 	for _, b := range want {
 		if r.Distribution[b] == 0 {
